@@ -1027,11 +1027,132 @@ def c12(tier):
 CHECKS['C12'] = c12
 
 
+
+# ------------------------------------------------------------------------------------ CLI events
+def cli_event(binary, prof, opts, lines, idx, timeout=120, keep_snaps=False, extra=None):
+    """runs the real binary on a file of `lines` (byte lists) and builds a 'cli' trace event"""
+    o = list(opts)
+    quiet = 'Q' in ''.join(o[i + 1] for i in range(len(o) - 1) if o[i] == '-i')
+    has_u = any(x.startswith('-u') or x.startswith('--update') for x in o)
+    if not has_u:
+        o += ['--update=-1']
+    r = cli.run_cli(binary, o, data=b''.join(bytes(l) + b'\n' for l in lines), timeout=timeout)
+    snaps = [s for s in cli.snapshots(r['out']) if 'rows' in s]
+    last = snaps[-1] if snaps else None
+    f = [int(o[i + 1]) for i in range(len(o) - 1) if o[i] == '-f']
+    dval = 60
+    for i, x in enumerate(o):
+        if x == '-d':
+            dval = int(o[i + 1])
+        elif x.startswith('-d='):
+            dval = int(x[3:])
+
+    def snap_rec(s):
+        return {'header': cli.cps(s['header']), 'sep': cli.cps(s['sep']), 'rows': [cli.cps(x) for x in s['rows']],
+                'counts': [cli.cps(s['counts'])] if s['counts'] is not None else [], 'closed': s['closed']}
+    ev = {'e': 'cli', 'i': idx, 'opts': o, 'profile': prof, 'quiet': quiet,
+          'args': {'f': [f] if f else [], 'd': max(-2**31 + 1, min(2**31 - 1, dval)), 'u': -1 if ('--update=-1' in o or '-u=-1' in o) else 3,
+                   'c': '-c' in o or '--count-df' in o},
+          'lines': lines, 'code': r['code'], 'timeout': r['code'] == -999, 'nsnaps': len(snaps),
+          'stderr': r['err'][-300:].decode('utf-8', 'replace'),
+          'last': [] if last is None else [snap_rec(last)]}
+    if keep_snaps:
+        ev['snaps'] = [snap_rec(s) for s in snaps]
+    if extra:
+        ev.update(extra)
+    return ev
+
+
+# ----------------------------------------------------------------------------------------- C16
+def c16(tier):
+    rep = Report('C16', tier)
+    rng = random.Random(vlib.seed())
+    import itertools
+    dfs = [4, 5, 11, 17, 20, 21]
+    subsets = [list(c) for r_ in range(0, 7) for c in itertools.combinations(dfs, r_)]
+    if tier == 'quick':
+        subsets = [[], [17], [4, 5], [11, 17, 20], [21], [0, 16], [18], [4, 5, 11, 17, 20, 21], [99], [5, 17]]
+    else:
+        subsets += [[0], [16], [18], [0, 16, 18], [99], [17, 99]]
+    # (a) the bounded model: counters = number of applied frames per DF, filtered frames change nothing
+    for filt in ('NoFilt', 'F17', 'F4_5'):
+        model_and_scenarios(rep, 'MC_hist', HIST_CFG.replace('Filt <- NoFilt', 'Filt <- ' + filt) % ('FALSE', 3),
+                            'history model with -f %s, depth 3: InvCount (counters = applied frames per DF), filtered frames leave all variables unchanged' % filt,
+                            emit=False, workers=8)
+    # (b) in-process: every line judged (filtered frame => table untouched)
+    groups = []
+    for fs in subsets:
+        opts = []
+        for d in fs:
+            opts += ['-f', str(d)]
+        acs = [0x4d1000 + rng.getrandbits(8) for _ in range(3)]
+        pool = []
+        for a in acs:
+            pool += nine_frames(a, rng)
+        pool += nine_frames(0, rng)
+        g = [reset(opts + (['-U'] if len(fs) % 2 else []))]
+        for _ in range(40 if tier == 'quick' else 200):
+            g.append(run1(rng.choice(pool)))
+        groups.append(g)
+    conform(rep, 'C16', groups, maxlen=3000)
+    # (c) the CLI with -c: counter line and table of the last refresh
+    events = []
+    for prof in (('release',) if tier == 'quick' else ('release', 'dev')):
+        binary = vlib.build_cli(prof)
+        for k, fs in enumerate(subsets):
+            for withc in (True, False) if k % 3 == 0 else (True,):
+                opts = (['-c'] if withc else [])
+                for d in fs:
+                    opts += ['-f', str(d)]
+                if k % 2:
+                    opts.append('-U')
+                acs = [0x4d2000 + rng.getrandbits(8) for _ in range(4)]
+                pool = []
+                for a in acs:
+                    pool += nine_frames(a, rng)
+                pool += nine_frames(0, rng) + [F.flip(df17(5, acs[0], me_opstatus(1)), [50]), 'zz', '8D', df11(5, acs[1], 5)[:13]]
+                lines = [list(rng.choice(pool).encode()) for _ in range(rng.randrange(5, 60 if tier == 'quick' else 400))]
+                events.append(cli_event(binary, prof, opts, lines, len(events) + 1))
+    tr = os.path.join(vlib.workdir(), 'c16cli.trace.ndjson')
+    vlib.write_ndjson(tr, events)
+    rep.add_validation(vlib.validate([tr], 'C16'))
+    rep.extra['cli_runs'] = len(events)
+    rep.rule = ('streams mixing all nine formats for 3-4 aircraft, address-zero frames and rejected lines, under -f subsets %s: in-process every '
+                'line is judged (frame of an unlisted format => table untouched); the real CLI is run with --update=-1 [-c] and TLC recomputes '
+                'from the input lines the expected "DFn:count" line (ascending DF, applied frames only) and the expected set of aircraft of '
+                'the last refresh. Non-trivial = accepted frame under a filter / CLI run with at least one applied frame' %
+                ('(all 64 subsets of {4,5,11,17,20,21} and unsupported numbers)' if tier == 'thorough' else str(subsets)))
+    vlib.nt_floor(rep, 100)
+    return rep
+
+
+CHECKS['C16'] = c16
+
+
 # ---------------------------------------------------------------------------------------- replay
 def replay(prop, path):
     """re-executes the scenario of a replay file against the current tree and validates it again"""
     r = json.load(open(path))
     sc = r.get('scenario')
+    ev = r.get('event') or {}
+    if not sc and ev.get('e') == 'cli':
+        rep = Report(prop, 'quick')
+        binary = vlib.build_cli(ev['profile'])
+        opts = [o for o in ev['opts']]
+        e2 = cli_event(binary, ev['profile'], opts, ev['lines'], 1, keep_snaps='snaps' in ev)
+        for k in ev:
+            if k not in e2:
+                e2[k] = ev[k]
+        tr = os.path.join(vlib.workdir(), 'replay-cli.trace.ndjson')
+        vlib.write_ndjson(tr, [e2])
+        rep.add_validation(vlib.validate([tr], prop))
+        for v in rep.viol:
+            print('REPRODUCED predicate=%s tag=%s' % (v['pred'], v['tag']))
+        if rep.viol:
+            print('VIOLATION property=%s replay=%s' % (prop, path))
+            return 1
+        print('not reproduced on the current tree')
+        return 0
     if not sc:
         print('replay file has no scenario (model-level or sweep violation): %s' % (r.get('model_output') or '')[-1500:])
         return 2
@@ -1208,3 +1329,37 @@ def c19(tier):
 
 
 CHECKS['C19'] = c19
+
+
+# ----------------------------------------------------------------------------------------- C17
+def c17(tier):
+    rep = Report('C17', tier)
+    binary = vlib.build_harness('release')
+    tr = sweep_tool(binary, 'country', None, 'country')
+    res = vlib.validate([tr], 'C17')
+    ev = vlib.read_ndjson(tr)[0]
+    known = vlib.load_known()
+    for r in res:
+        rep.traces += 1
+        for v in r['viol']:
+            # v['i'] is the first address of the offending run
+            run = [x for x in ev['runs'] if x['lo'] == v['i']]
+            v = dict(v, event={'e': 'country-run', 'run': run[0] if run else None}, tag='%06X' % v['i'])
+            k = vlib.match_known(v, known)
+            if k:
+                rep.known_hits[k['what']] = rep.known_hits.get(k['what'], 0) + 1
+            else:
+                rep.viol.append(v)
+    rep.evaluations = 1 << 24
+    rep.nontrivial = set((r['lo'], r['hi'], r['reg']) for r in ev['runs'])
+    rep.samples = ev['runs'][:3] + [r for r in ev['runs'] if r['reg'] == 'IE'][:1]
+    rep.exhaustive = True
+    rep.rule = ('a row is created through the public constructor for every one of the 2^24 addresses; the run-length encoding of row.reg '
+                '(%d runs, lossless) is judged by TLC against the Annex 10 block table of spec/Country.tla: runs partition the address space, '
+                'a run starting inside a block stays inside it and shows its code, a run starting outside every block touches no block and '
+                'shows "??". distinct_nontrivial = number of runs' % len(ev['runs']))
+    rep.assumptions.append('the allocation table is written from memory of Annex 10 (no copy offline); blocks marked uncertain constrain nothing')
+    return rep
+
+
+CHECKS['C17'] = c17
